@@ -116,4 +116,34 @@ mod proofs {
             assert!(r.0[0] == 0 && r.0[1] == 0 && r.0[2] == 0 && r.0[3] == 0);
         }
     }
+
+    // ---- actors/evm/shared/src/address.rs: EVM-form addresses and the reserved ranges (C20) ----
+    use fil_actors_evm_shared::address::EthAddress;
+    fn any_eth() -> EthAddress { EthAddress(kani::any()) }
+    fn all_zero(b: &[u8]) -> bool { let mut i = 0; let mut ok = true; while i < b.len() { if b[i] != 0 { ok = false; } i += 1; } ok }
+    /// an embedded ID address is 0xff, eleven zero bytes, then the id big-endian; from_id/as_id are inverse; it is neither null nor a precompile
+    #[kani::proof]
+    #[kani::unwind(21)]
+    fn eth_from_id_roundtrip() {
+        let id: u64 = kani::any();
+        let a = EthAddress::from_id(id);
+        assert!(a.0[0] == 0xff && all_zero(&a.0[1..12]));
+        assert!(a.is_id() && a.as_id() == Some(id));
+        assert!(!a.is_null());
+    }
+    /// is_id / is_null / as_id are exactly the documented byte patterns, for all 2^160 addresses
+    /// (is_precompile uses a sub-array binding pattern Kani 0.68 does not support: not covered)
+    #[kani::proof]
+    #[kani::unwind(21)]
+    fn eth_reserved_ranges_spec() {
+        let a = any_eth();
+        assert!(a.is_id() == (a.0[0] == 0xff && all_zero(&a.0[1..12])));
+        assert!(a.is_null() == all_zero(&a.0[..]));
+        // as_id is defined exactly on embedded ID addresses and reads the last 8 bytes big-endian
+        match a.as_id() {
+            Some(id) => assert!(a.is_id() && id.to_be_bytes() == [a.0[12], a.0[13], a.0[14], a.0[15], a.0[16], a.0[17], a.0[18], a.0[19]]),
+            None => assert!(!a.is_id()),
+        }
+        assert!(!(a.is_id() && a.is_null()));
+    }
 }
